@@ -126,7 +126,7 @@ class ColumnBackend(ArraySchemaBackend):
                         column_name,
                         return_check_obj=True,
                     )
-                    if schema.parsers:
+                    if schema.parsers and validated_column is not None:
                         check_obj[column_name] = validated_column
             else:
                 if getattr(schema, "drop_invalid_rows", False):
@@ -140,7 +140,7 @@ class ColumnBackend(ArraySchemaBackend):
                     column_name,
                     return_check_obj=True,
                 )
-                if schema.parsers:
+                if schema.parsers and validated_column is not None:
                     check_obj[column_name] = validated_column
 
         if lazy and error_handler.collected_errors:
